@@ -34,6 +34,18 @@ fn calls(d: u64) -> Vec<Call> {
     v.push(Call::Release(0, 1));
     v.push(Call::Release(u64::MAX, 1));
     v.push(Call::Release(u64::MAX - 1, 2));
+    // arguments whose low bits look like a small, plausible request while a high bit is set (width of an
+    // index key, of the device limit, of a sign bit): a length or start that is truncated somewhere
+    // inside the manager turns into a valid-looking one
+    for k in [16u32, 28, 31, 32, 33, 40, 48, 56, 63] {
+        for j in 0..=d.min(3) {
+            v.push(Call::Alloc((1u64 << k) + j));
+            v.push(Call::Release(START, (1u64 << k) + j));
+            v.push(Call::Release(START + j, 1u64 << k));
+            v.push(Call::Release((1u64 << k) + START + j, 1));
+        }
+    }
+    v.push(Call::Alloc(u64::MAX - 1));
     v
 }
 
@@ -117,6 +129,9 @@ fn check_state(m: &FreeSpaceManager, bits: Bits, d: u64) -> Result<(), String> {
     if frag > 100 {
         return Err(format!("fragmentation {frag}% out of range"));
     }
+    if want.len() <= 1 && frag != 0 {
+        return Err(format!("fragmentation reported {frag}% although the free set is {} run", want.len()));
+    }
     Ok(())
 }
 
@@ -198,6 +213,11 @@ pub fn run(tier: &str, report: &mut Report) {
                 }
             }
             let mut level = vec![initial];
+            // differential oracle without an expected value: a reported figure "of the true free set" is a
+            // function of that set, so the same free set reached by two histories must report the same
+            // fragmentation figure (a figure that is refreshed on some paths only is caught here)
+            let frag_of: Mutex<HashMap<Bits, (u32, Vec<Call>)>> = Mutex::new(HashMap::new());
+            frag_of.lock().unwrap().insert(initial, (build(d, init_full, &[]).get_fragmentation(), Vec::new()));
             let transitions = AtomicU64::new(0);
             let stop = AtomicBool::new(false);
             while !level.is_empty() {
@@ -216,7 +236,24 @@ pub fn run(tier: &str, report: &mut Report) {
                                 bad.lock().unwrap().push((h, e));
                             }
                             Ok(next) => {
+                                let frag_clash = {
+                                    let f = m.get_fragmentation();
+                                    let mut g = frag_of.lock().unwrap();
+                                    match g.get(&next) {
+                                        Some((f0, h0)) if *f0 != f => Some(format!(
+                                            "fragmentation reported {f}% for the free set {:?}, but {f0}% for the same free set after {h0:?}: the figure is not that of the true free set",
+                                            runs_of(next, d)
+                                        )),
+                                        Some(_) => None,
+                                        None => {
+                                            g.insert(next, (f, h.clone()));
+                                            None
+                                        }
+                                    }
+                                };
                                 if let Err(e) = check_state(&m, next, d) {
+                                    bad.lock().unwrap().push((h, format!("after {call:?}: {e}")));
+                                } else if let Some(e) = frag_clash {
                                     bad.lock().unwrap().push((h, format!("after {call:?}: {e}")));
                                 } else if next != bits && !seen_ref.contains_key(&next) {
                                     found.lock().unwrap().push((next, h));
